@@ -40,6 +40,8 @@ Definition slice (b : bytes) (i j : N) : bytes := take (j - i) (drop i b).
 Definition cap_of (o : oopts) : option N :=
   if o_retry o && negb (o_auto o) then Some (o_buf o) else None.
 
+Definition opts_valid (o : oopts) : bool := o_ro o || (0 <? o_buf o).
+
 Record log := mklog {
   l_data : bytes;        (* THE byte array *)
   l_ro : bool;
@@ -106,6 +108,7 @@ Definition spec_step (a : log) (o : op) : log * out :=
                   (if l_ro a then l_fl a else l_size a) (l_disc a) false, OOk)
   | Reopen o =>
       if negb (l_closed a) then (a, OErr)
+      else if negb (opts_valid o) then (a, OErr)      (* Options.Validate: a writer needs a buffer *)
       else (mklog (l_data a) (o_ro o) false (l_meta a) (cap_of o) (l_size a) (l_size a) (l_disc a) false, OOk)
   | Meta => (a, OBytes (l_meta a))
   end.
